@@ -678,9 +678,12 @@ class MarkdownNormalizer(Renderer):
 
     def render_code_span(self, element: inline.CodeSpan) -> str:
         text = element.children
+        # The delimiter must be longer than any run of backticks inside the span.
+        longest_run = max((len(run) for run in re.findall(r"`+", text)), default=0)
+        delimiter = "`" * (longest_run + 1)
         if text and (text[0] == "`" or text[-1] == "`"):
-            return f"`` {text} ``"
-        return f"`{element.children}`"
+            return f"{delimiter} {text} {delimiter}"
+        return f"{delimiter}{text}{delimiter}"
 
     # --- GFM Renderer Methods ---
 
